@@ -285,8 +285,10 @@ pub struct Part {
     pub runs: u64,
     pub wall_s: f64,
     pub counters: BTreeMap<String, u64>,
-    pub states: Vec<u64>,
-    pub shapes: Vec<u64>,
+    /// number of distinct fingerprints (both build profiles execute the same traces, so the sets
+    /// are identical and need not be stored)
+    pub states: u64,
+    pub shapes: u64,
     pub log_hash: u64,
     pub samples: Vec<String>,
     pub known_hits: BTreeMap<String, (u64, String)>,
@@ -303,8 +305,8 @@ pub fn part_from(prop: &dyn Prop, tier: Tier, seed: u64, o: &RunOutcome) -> Part
         runs: o.runs_done,
         wall_s: o.wall_s,
         counters: o.stats.counters.clone(),
-        states: o.stats.states.iter().copied().collect(),
-        shapes: o.stats.shapes.iter().copied().collect(),
+        states: o.stats.states.len() as u64,
+        shapes: o.stats.shapes.len() as u64,
         log_hash: o.stats.log_hash,
         samples: o.stats.samples.clone(),
         known_hits: o.known_hits.clone(),
@@ -348,8 +350,8 @@ pub fn merge_parts(prop: &dyn Prop, tier: Tier, tags: &[&str]) -> Result<(), Str
         parts.push(serde_json::from_str(&s).map_err(|e| e.to_string())?);
     }
     let mut counters: BTreeMap<String, u64> = BTreeMap::new();
-    let mut states = std::collections::BTreeSet::new();
-    let mut shapes = std::collections::BTreeSet::new();
+    let mut states: u64 = 0;
+    let mut shapes: u64 = 0;
     let mut runs = 0;
     let mut wall = 0.0;
     let mut violations = 0;
@@ -361,8 +363,8 @@ pub fn merge_parts(prop: &dyn Prop, tier: Tier, tags: &[&str]) -> Result<(), Str
         for (k, v) in &p.counters {
             *counters.entry(k.clone()).or_insert(0) += v;
         }
-        states.extend(p.states.iter().copied());
-        shapes.extend(p.shapes.iter().copied());
+        states = states.max(p.states);
+        shapes = shapes.max(p.shapes);
         runs += p.runs;
         wall += p.wall_s;
         violations += p.violations;
@@ -407,14 +409,14 @@ pub fn merge_parts(prop: &dyn Prop, tier: Tier, tags: &[&str]) -> Result<(), Str
         "level": prop.level(),
         "coverage": {
             "evaluations": runs,
-            "distinct_nontrivial": states.len(),
+            "distinct_nontrivial": states,
             "rule": prop.rule(),
             "samples": samples,
             "simulated_runs": runs,
             "simulated_runs_per_hour": runs_per_hour,
             "seeds_per_hour": runs_per_hour,
             "simulated_time": {"unit": "simulator events (steps); the library has no clock", "steps": steps},
-            "distinct_schedule_shapes": shapes.len(),
+            "distinct_schedule_shapes": shapes,
             "faults_fired": faults,
             "probes_hit": probes,
             "counters": other,
